@@ -5,6 +5,7 @@ import (
 	"errors"
 	"fmt"
 
+	"github.com/KevoDB/kevo/pkg/common/log"
 	"github.com/KevoDB/kevo/pkg/config"
 	"github.com/KevoDB/kevo/pkg/engine"
 	"github.com/KevoDB/kevo/pkg/wal"
@@ -77,6 +78,8 @@ func NewFS() *simos.FS {
 	fs := simos.NewFS()
 	simos.Install(fs)
 	wal.DisableRecoveryLogs = true
+	// the replication package logs several lines per replicated entry at INFO
+	log.SetLevel(log.LevelFatal)
 	return fs
 }
 
